@@ -492,7 +492,7 @@ pub struct Placement {
     pub stack: u64,
     pub order: ListOrder,
 }
-pub const PLACEMENTS: u64 = 4;
+pub const PLACEMENTS: u64 = 5;
 /// Placement menu. 0: low addresses, address-ordered list (the layout of the mix / uniform
 /// spaces). 1: the same addresses plus a bystander below, list in descending order. 2: the top of
 /// the architecture's user address space (32-bit: 0xf000_0000 / stack 0xff00_0000, MIPS32 below
@@ -515,6 +515,19 @@ pub fn placement_of(arch: Arch, placement: u64) -> Placement {
         1 => Placement { name: "low, bystander below, list descending", mods: [MOD_BASE, MOD_BASE + MOD_SIZE], bystanders: [Some(0x3000_0000), None], stack: STACK_BASE, order: ListOrder::Descending },
         2 => Placement { name: "top of address space", mods: [hi_mod, hi_mod + MOD_SIZE], bystanders: [None, None], stack: hi_stack, order: ListOrder::Ascending },
         3 => Placement { name: "executable low, rest at top, list rotated (lowest last, highest inside)", mods: [exe, hi_mod], bystanders: [Some(hi_mod + 0x0100_0000), Some(exe + 0x0100_0000)], stack: hi_stack, order: ListOrder::Rotated },
+        4 => {
+            // two adjacent modules around a power-of-two boundary B (the second starts exactly at B): the sign-bit
+            // boundary on 32-bit CPUs, 2^47 (the pointer-authentication default split) on ARM64, the start of
+            // the kernel text mapping in the upper canonical half on amd64, 2^39 on MIPS64
+            let (b, stack): (u64, u64) = match arch {
+                Arch::X86 | Arch::Arm => (0x8000_0000, 0x9000_0000),
+                Arch::Mips32 => (0x4000_0000, 0x5000_0000),
+                Arch::Amd64 => (0xffff_ffff_8000_0000, 0xffff_c900_0000_0000),
+                Arch::Arm64 | Arch::Arm64Old => (1 << 47, (1 << 47) - 0x1000_0000),
+                Arch::Mips64 => (1 << 39, (1 << 39) + 0x1000_0000),
+            };
+            Placement { name: "two modules around a power-of-two boundary (second starts exactly on it)", mods: [b - MOD_SIZE, b], bystanders: [None, None], stack, order: ListOrder::Ascending }
+        }
         _ => panic!("harness: placement {placement} not in the menu"),
     }
 }
